@@ -513,6 +513,16 @@ def random_script(rng):
         if not live_admin:
             break
         remover_conn = rng.choice(live_admin)
+        if rng.random() < 0.12:
+            # somebody who may not: a non-admin session, or a connection without a session
+            others = [k for k in conns if conns[k] not in admins]
+            if others and rng.random() < 0.7:
+                remover_conn = rng.choice(others)
+            else:
+                ops.append(CN(c))
+                conns[c] = n_ctl
+                remover_conn = c
+                c += 1
         me = conns[remover_conn]
         x = rng.random()
         if x < 0.25:
@@ -591,9 +601,10 @@ def run(ctx: Ctx):
     logging.disable(logging.CRITICAL)
     try:
         scripts = gen_scripts(ctx)
+        n_boundary = len(boundary_scripts())
         lines, impls, runners = [], [], []
         for k, script in enumerate(scripts):
-            keyseed = ctx.seed * 1000003 + k
+            keyseed = k if k < n_boundary else ctx.seed * 1000003 + k  # boundary scripts replay identically for every seed
             r = _execute(ctx, script, keyseed)
             runners.append(r)
             lines.append(r.model_line())
